@@ -183,6 +183,21 @@ def forwarding_rule(ctx, rule, params, consequence):
         n += 1
         ctx.decide(ok, rule, ov.ident, loc_of(ov, call), f"{c.name}.sample hands `{p}` on to the sample() it extends",
                    f"{c.name}.sample accepts `{p}` but does not hand it on to super().sample(): {consequence}", disc=f"forward|{p}")
+    # the front end splits the caller's keyword arguments by the *constructor's* signature: a name the constructor accepts goes there and is removed
+    # from the sampling call.  An option of sample() that is also a constructor parameter therefore never reaches sample() through sample_posterior,
+    # and sample()'s own default for it is what the run uses.
+    repo = ctx.repo
+    smc = repo.cls(SMC)
+    for c in [smc] + list(repo.subclasses(smc, strict=True)):
+        ini, smp = c.resolve("__init__"), c.resolve("sample")
+        if ini is None or smp is None:
+            continue
+        both = (set(ini.params[1:]) | {x.arg for x in ini.node.args.kwonlyargs}) & (set(smp.params[1:]) | {x.arg for x in smp.node.args.kwonlyargs}) & set(params)
+        for p in sorted(both):
+            ctx.refute(rule, f"{c.ident}.__init__", loc_of(ini),
+                       f"`{p}` is a parameter of {c.name}.__init__ and of {c.name}.sample: sample_posterior(..., {p}=v) routes every keyword the constructor accepts to the constructor "
+                       f"and drops it from the sampling call, so sample() runs with its own default for `{p}` (which it installs over the constructor's value): {consequence}",
+                       disc=f"routing|{p}")
     return n
 
 
